@@ -18,8 +18,12 @@ from . import core
 from . import c01_lang as L
 from . import c01_run as R
 
-VARIANTS = ["eager", "coro_eager", "func_eager", "eager_func", "factory", "eager_ctx", "cancelling"]
+VARIANTS = ["eager", "coro_eager", "func_eager", "eager_func", "factory", "eager_ctx", "cancelling",
+            "pytask_factory", "loopfactory_classic", "loopfactory_kw"]
 CTX_VARIANTS = ("eager_ctx", "cancelling")
+# how the `with` block is left: normally, by an Exception, or by a BaseException (the CancelledError of the task
+# owning the block, GeneratorExit of a generator being closed, a custom BaseException)
+EXIT_EXC = [None, None, None, "E1", "CA", "CA", "GE", "B1"]
 FAIL_KINDS = ["E1", "E2", "B1", "RT"]
 
 
@@ -35,7 +39,7 @@ def gen_futs(rng, n):
     out = []
     for _ in range(n):
         r = rng.random()
-        out.append("P" if r < 0.62 else "T" if r < 0.72 else f"V{rng.randint(1, 9)}" if r < 0.86
+        out.append("P" if r < 0.52 else "Q" if r < 0.62 else "T" if r < 0.72 else f"V{rng.randint(1, 9)}" if r < 0.86
                    else "X" + rng.choice(FAIL_KINDS) if r < 0.95 else "C")
     return out
 
@@ -84,6 +88,7 @@ def gen_single(rng, with_cancel, raw=False):
     if variant in CTX_VARIANTS:
         # which of the cancel events is the block exit (earlier ones are cancel() calls inside the block)
         case["exit_at"] = rng.randrange(ncan)
+        case["exit_exc"] = rng.choice(EXIT_EXC)
     return expand(case)
 
 
@@ -124,6 +129,7 @@ def gen_ctx(rng):
     case = {"kind": "single", "prog": prog, "futs": futs, "script": script, "variant": variant}
     if variant in CTX_VARIANTS:
         case["exit_at"] = rng.randrange(total)
+        case["exit_exc"] = rng.choice(EXIT_EXC)
     if not script_ok(script):
         script.append(["settle"])
     return expand(case)
@@ -233,6 +239,10 @@ def oracle_single(case):
             tags.add("variant:" + case["variant"])
         if case["variant"] in CTX_VARIANTS and case.get("exit_at", 0) > 0:
             tags.add("cancel-inside-block-then-exit")
+        if case["variant"] in CTX_VARIANTS and case.get("exit_exc"):
+            tags.add("block-left-by:" + ("Exception" if case["exit_exc"] == "E1" else "BaseException"))
+    if "Q" in case["futs"]:
+        tags.add("python-implemented-future")
     for i, e in enumerate(ev):
         if e[0] == "cancel" and i >= n:
             tags.add("cancel-later")
@@ -290,7 +300,10 @@ def key_single(prop, what, case):
     if case.get("caller", "task") != "task":
         return f"{prop}:single:called-from-loop-callback"
     if case["variant"] in CTX_VARIANTS:
-        return f"{prop}:single:block-exit" + (":after-cancel-inside-block" if case.get("exit_at", 0) else "")
+        return f"{prop}:single:block-exit" + (":after-cancel-inside-block" if case.get("exit_at", 0) else "") \
+            + (":by-exception" if case.get("exit_exc") else "")
+    if "Q" in case["futs"] and where == "cancel-before-first-step":
+        return f"{prop}:single:{where}:python-implemented-future"
     return f"{prop}:single:{where}{clr}"
 
 
@@ -331,6 +344,14 @@ def shrink_single(case, fails):
                 break
     if cur.get("caller", "task") != "task":
         c = {k_: v for k_, v in cur.items() if k_ != "caller"}
+        if fails(c):
+            cur = c
+    if cur["variant"] in CTX_VARIANTS and cur.get("exit_exc"):
+        c = {**cur, "exit_exc": None}
+        if fails(c):
+            cur = c
+    if any(f == "Q" for f in cur["futs"]):
+        c = expand({**cur, "futs": ["P" if f == "Q" else f for f in cur["futs"]]})
         if fails(c):
             cur = c
     if cur["variant"] in CTX_VARIANTS:
@@ -403,7 +424,8 @@ def gen_multi(rng, with_cancel):
         env.append([["res", f, rng.randint(1, 9)] if r < 0.75 else ["fail", f, rng.choice(FAIL_KINDS)]
                     if r < 0.9 else ["cf", f], False])
     case = {"kind": "multi", "progs": progs, "children": children, "futs": futs, "env": env,
-            "settle": st, "variant": rng.choice(["eager", "coro_eager", "func_eager", "factory"])}
+            "settle": st, "variant": rng.choice(["eager", "coro_eager", "func_eager", "factory", "pytask_factory",
+                                                 "loopfactory_classic", "loopfactory_kw"])}
     r = rng.random()
     if r < 0.25:
         case["caller"] = "call_soon" if r < 0.15 else "done_callback"
@@ -544,7 +566,8 @@ def key_multi(prop, what, case):
 
 def lean_line(case, mode, fix="R"):
     ev = " ".join(" ".join(str(x) for x in e) for e in case["events"])
-    return f"case {mode} {fix} ; {' '.join(case['futs'])} ; {L.prog_text(case['prog'])} ; {ev}"
+    futs = ["P" if f == "Q" else f for f in case["futs"]]    # a Python-implemented Future is a Future to the model
+    return f"case {mode} {fix} ; {' '.join(futs)} ; {L.prog_text(case['prog'])} ; {ev}"
 
 
 def correspondence(ctx, prop, cases, theorem):
@@ -587,6 +610,7 @@ def without_cancel(case):
     if c["variant"] in CTX_VARIANTS:
         c["variant"] = "eager"
         c.pop("exit_at", None)
+        c.pop("exit_exc", None)
     return expand(c)
 
 
